@@ -3,6 +3,7 @@ package harness
 import (
 	"context"
 	"fmt"
+	"net/http/httptest"
 	"os"
 	"path/filepath"
 	"strings"
@@ -31,6 +32,9 @@ type C07Case struct {
 	// GetEnds (streamable-get): after the script the server ends the listening stream cleanly, and every stream the client
 	// opens afterwards ends at once as well (a server or proxy that does not keep such streams open)
 	GetEnds bool `json:"getends,omitempty"`
+	// FillMB (legacy, streamable-get): the client uses the library's own HTTP handler over loopback TCP, and before the
+	// script the event stream has already carried this many MiB of comments and unknown events (a long-lived stream)
+	FillMB int `json:"fillmb,omitempty"`
 }
 
 var c07Junk = []string{"comment", "blank", "nonjson", "notification", "unknown-request", "unknown-id", "id-bool", "id-object", "id-string", "no-result", "both", "giant", "garbage", "bom", "cr-valid",
@@ -70,6 +74,9 @@ func genC07(t *rapid.T) C07Case {
 	c.Split = rapid.IntRange(0, 2).Draw(t, "split") == 0
 	if c.Client == "streamable-get" && rapid.IntRange(0, 3).Draw(t, "getends") == 0 {
 		c.GetEnds = true
+	}
+	if (c.Client == "legacy" || c.Client == "streamable-get") && !c.GetEnds && rapid.IntRange(0, 11).Draw(t, "long") == 0 {
+		c.FillMB = rapid.SampledFrom([]int{3, 20}).Draw(t, "fillmb")
 	}
 	return c
 }
@@ -286,12 +293,20 @@ func runC07WithFake(c C07Case, preset *FakeServer) *Failure {
 		}
 		br := &Bridge{H: fake}
 		opts := []mcp.ClientOption{mcp.WithHTTPReqHandler(br), mcp.WithClientLogger(nopLogger{})}
+		base := "http://c07.invalid"
+		if c.FillMB > 0 {
+			ts := httptest.NewServer(fake)
+			prev := cleanup
+			cleanup = func() { prev(); ts.CloseClientConnections(); ts.Close() }
+			base = ts.URL
+			opts = []mcp.ClientOption{mcp.WithClientLogger(nopLogger{})}
+		}
 		var err error
 		var hc *mcp.Client
 		if c.Client == "legacy" {
-			hc, err = mcp.NewSSEClient("http://c07.invalid/sse", mcp.Implementation{Name: "c", Version: "1"}, opts...)
+			hc, err = mcp.NewSSEClient(base+"/sse", mcp.Implementation{Name: "c", Version: "1"}, opts...)
 		} else {
-			hc, err = mcp.NewClient("http://c07.invalid/mcp", mcp.Implementation{Name: "c", Version: "1"}, opts...)
+			hc, err = mcp.NewClient(base+"/mcp", mcp.Implementation{Name: "c", Version: "1"}, opts...)
 		}
 		if err != nil {
 			return Failf("C07/new-client", "%v", err)
@@ -330,6 +345,16 @@ func runC07WithFake(c C07Case, preset *FakeServer) *Failure {
 		if c.GetEnds {
 			fake.EndAllGets.Store(true)
 			fake.PushToStreams("END:")
+		}
+	}
+	if c.FillMB > 0 && fake != nil {
+		// the stream has been up for a long time
+		chunk := "RAW:" + strings.Repeat(": keep-alive comment on a long-lived stream, nothing to see here ........................................\n", 10000) + "event: tick\ndata: {}\n\n"
+		for i := 0; i < c.FillMB; i++ {
+			for fake.PushToStreams(chunk) == 0 {
+				time.Sleep(time.Millisecond) // the channel of the stream is full: the reader is behind
+			}
+			time.Sleep(200 * time.Microsecond)
 		}
 	}
 	// the affected call, with other calls pending
